@@ -164,6 +164,9 @@ def check_list(sh, uc_mod, cell, sym, dsmax, case):
             sh.violation("gethkls:ds-not-length-of-B.hkl", case, {"hkl": h, "ds": ds, "expected": d})
             return None
     dss = [p[0] for p in peaks]
+    if dss and max(dss) >= dsmax:
+        sh.violation("gethkls:listed-reflection-not-below-the-limit", case, {"ds": max(dss), "dsmax": dsmax})
+        return None
     if any(dss[i] > dss[i + 1] for i in range(len(dss) - 1)):
         sh.violation("gethkls:not-ascending", case, {})
         return None
@@ -235,6 +238,17 @@ def run_shard(desc):
                     if (r[1] > 0 or oblique) and nrings >= 2:
                         sh.nontrivial += 1 + len(tols)
                     sh.outcomes.add((sym, oblique, min(len(r[0]), 50) // 10))
+                    # the limit put exactly ON a reflection (the library's own d* of it): strictly-below means it is not listed, and
+                    # everything the longer list had below it still is
+                    if sym == "P" and len(r[0]) >= 3 and dsmax == limits_for(cell, tier)[-1]:
+                        for pk in (r[0][len(r[0]) // 2], r[0][-1]):
+                            lim = pk[0]
+                            got2 = uc_mod.unitcell(cell, sym).gethkls(lim)
+                            if any(q[0] >= lim for q in got2):
+                                sh.violation("gethkls:limit-on-a-reflection-is-not-strict", dict(case, dsmax=lim), {"n_at_or_above": sum(1 for q in got2 if q[0] >= lim)})
+                            elif len(got2) != sum(1 for q in r[0] if q[0] < lim):
+                                sh.violation("gethkls:limit-on-a-reflection-loses-lower-ones", dict(case, dsmax=lim), {})
+                            sh.evaluations += 1
         sh.sample({"cell": cell, "sym": "F", "dsmax": dsmax}, limit=1)
     return sh
 
